@@ -2,6 +2,9 @@
 // real rule managers.
 //
 //	ds.handle <module> <hex payload | ->        => ok|err <module's GetRules, canonical>
+//	ds.deliver <module> <hex payload | ->       => ok|err <rules>   (through a datasource.Base with the module's handler registered,
+//	                                               the payload copied into ONE long-lived buffer per case, as a datasource with a reused
+//	                                               read buffer does: buf = append(buf[:0], payload...); base.Handle(buf))
 //	rules <module>                              => <GetRules, canonical>
 //	tags <module>                               => GoField:kind:jsonname[,omitempty];…   (reflection on the wire type)
 //	file.new <module> <hex | none>              => ok|err <rules>      (real temp file + fsnotify; thorough tier)
@@ -45,6 +48,9 @@ import (
 
 type Interp struct {
 	handlers map[string]datasource.PropertyHandler
+	// one Base per module (the same handler object as ds.handle uses) and one delivery buffer per case
+	bases map[string]*datasource.Base
+	buf   []byte
 	// file datasource state
 	dir   string
 	path  string
@@ -178,6 +184,8 @@ func (it *Interp) Reset() {
 	it.rewatching = false
 	clearAll()
 	it.handlers = map[string]datasource.PropertyHandler{}
+	it.bases = map[string]*datasource.Base{}
+	it.buf = make([]byte, 0, 256)
 }
 
 func newHandler(mod string) datasource.PropertyHandler {
@@ -356,6 +364,18 @@ func (it *Interp) Step(t []string, op string) string {
 	case "ds.handle":
 		err := it.handler(t[1]).Handle(payload(t[2]))
 		if err != nil {
+			return "err " + rules(t[1])
+		}
+		return "ok " + rules(t[1])
+	case "ds.deliver":
+		b, ok := it.bases[t[1]]
+		if !ok {
+			b = &datasource.Base{}
+			b.AddPropertyHandler(it.handler(t[1]))
+			it.bases[t[1]] = b
+		}
+		it.buf = append(it.buf[:0], payload(t[2])...)
+		if err := b.Handle(it.buf); err != nil {
 			return "err " + rules(t[1])
 		}
 		return "ok " + rules(t[1])
